@@ -19,6 +19,12 @@ CLAIMED = {
  "C01": ("exploration", "deterministic simulation: seeded emitter interleavings (yield stalls), latency/jitter/chunking network, typed-handler delivery oracle keyed by unique emission ids",
          "Real sio server and 1-3 real sio clients over the simulated network on polling / websocket / polling->websocket upgrade, recovery on/off, three buffer limits; up to 8 emitter tasks per run emit events of 12 argument-shape classes and 17 event names with size targets at the 125/126, 32 KiB, 64 KiB and limit boundaries; each emission must reach exactly one handler, the one registered for its name, with equal arguments; any disconnect on the fault-free network is a violation.",
          "§7 C01", TB),
+ "C10": ("exploration", "deterministic simulation: hostile-frame fault kind from a raw protocol peer against the real server/client, process-death attribution by the supervisor; plus labelled input enumeration of the decoder",
+         "A raw peer (polling POSTs or WebSocket) sends sequences of grammar-aware hostile Socket.IO frames, mixed with valid ones, to the real server while an honest real client shares it; a raw WebSocket server does the same to the real Go client. The worker process must survive, the honest connection must still complete an emit-with-ack, a new connection must be possible, the client API must return. Side run (input enumeration, kept apart): every string <= 4 (thorough 5) over the protocol alphabet and the whole corpus through Parser.Add + decode for 7 handler signature families.",
+         "§7 C10", TB),
+ "C13": ("exploration", "deterministic simulation: raw peer with exact framing (Content-Length / chunked / WebSocket / fragmented) at the limit boundaries, body-byte accounting; real-client bursts against small maxPayload; plus labelled exhaustive enumeration of the batcher",
+         "Inbound: one message of exact wire size limit-1/limit/limit+1/10x limit by four framings against tiny/default/disabled limits - over-limit never reaches OnPacket, session closed, sender told, the library pulls <= limit+4 KiB out of the body; in-limit delivered and the session keeps working. Outbound: both directions around 32 KiB/64 KiB on every transport. Batch: concurrent bursts from the real polling client, every POST the server sees fits maxPayload, nothing dropped/duplicated/reordered. Side run (input enumeration): VerifClientBatches for every vector of <= 6 packet sizes x every maxPayload.",
+         "§7 C13", TB),
  "C14": ("fault_enumeration", "deterministic simulation: black-hole fault enumerated over heartbeat phase x transport x direction + seeded search; detection-time oracle on the fake clock",
          "Real eio server/client pairs on all three transport modes with ping values 1-3 s; the link is silently black-holed (both ways or one way) at swept and drawn phases of the heartbeat and of the upgrade; each side must report close with a ping-time-out/transport reason no later than its last received heartbeat + pingInterval + pingTimeout (+ overlapping injected stalls); live mode: 50-80 heartbeat periods with traffic at every phase offset, nobody may close.",
          "§7 C14", TB),
